@@ -217,6 +217,37 @@ pub fn generate_c02(tier: &str, seed: u64, out: &mut Out) {
             }
         }
     }
+    // (b3) the generated documents of the typed lossy readers (C20's generator: every field with
+    //      every text of its value pool, accepted and rejected, missing fields, structural cases)
+    //      through the corresponding entry point
+    {
+        let mut tmp = Out::new();
+        crate::typeddoc::generate_c20("quick", seed, &mut tmp);
+        let map = [
+            ("typed.control", "lctl.control"),
+            ("typed.release", "lctl.release"),
+            ("typed.source", "lctl.source"),
+            ("typed.package", "lctl.package"),
+            ("typed.buildinfo", "lctl.buildinfo"),
+            ("typed.removal", "lctl.removal"),
+            ("typed.copyright", "cpr.lossy"),
+            ("typed.dep3", "dep3.lossy"),
+            ("typed.repos", "apt.repos"),
+        ];
+        let stride = if thorough { 1 } else { 3 };
+        for (i, l) in tmp.lines.iter().enumerate() {
+            if i % stride != 0 {
+                continue;
+            }
+            let parts: Vec<&str> = l.split('\t').collect();
+            if parts.len() != 3 {
+                continue;
+            }
+            if let Some((_, entry)) = map.iter().find(|(op, _)| *op == parts[0]) {
+                out.lines.push(format!("total\t{}\t{}\t{}", entry, parts[1], parts[2]));
+            }
+        }
+    }
     // (c) relation strings routed through the composite document readers
     let rels = strings_upto(&REL_ALPHABET, 2);
     for r in &rels {
